@@ -307,6 +307,21 @@ def _shim_case(T, key, npars, fixed_idx, do_stitch):
                              _zb(eng.veq([list(x) for x in mk["fixed_vals"]], [list(x) for x in box["fixed_vals"]]))), **meta)
         ok = mk["do_grad"] is False and "func" in mk
         (T.ok if ok else T.fail)(f"{key}#post.minimizer-kwargs-keys{sfx}", *([] if ok else [str(sorted(mk))]), **meta)
+        # what the backend shims receive (the jax shim re-stitches from these pieces itself): position k of fixed_idx belongs to
+        # position k of fixed_values - exactly the caller's (index, value) pairs - and variable_idx lists the free positions ascending
+        wc = calls_to(r.path, f"{OPT}/opt_numpy.py::wrap_objective")
+        jp = wc[0].kwargs.get("jit_pieces") if len(wc) == 1 else None
+        okj = isinstance(jp, dict) and all(k2 in jp for k2 in ("fixed_idx", "variable_idx", "fixed_values", "do_stitch"))
+        if not okj:
+            T.fail(f"{key}#fwd.jit-pieces-pair-each-fixed-index-with-its-value{sfx}", "backend shim not called once with jit_pieces", kind="forwarding", **meta)
+        else:
+            fi, fv, vi = list(jp["fixed_idx"]), list(jp["fixed_values"]), list(jp["variable_idx"])
+            okp = len(fi) == len(fv) == len(fixed_idx) and all(isinstance(i, int) for i in fi) and sorted(fi) == sorted(fixed_idx) and vi == free and jp["do_stitch"] is do_stitch
+            if not okp:
+                T.fail(f"{key}#fwd.jit-pieces-pair-each-fixed-index-with-its-value{sfx}", f"fixed_idx={fi} variable_idx={vi}", kind="forwarding", **meta)
+            else:
+                T.ob_path(eng, f"{key}#fwd.jit-pieces-pair-each-fixed-index-with-its-value{sfx}", r,
+                          z3.And(*[_zb(eng.veq(v, vals[i])) for i, v in zip(fi, fv)]) if fi else z3.BoolVal(True), kind="forwarding", **meta)
         # stitch_pars: every fixed value and every free parameter back at its own position
         nfree = len(free) if do_stitch else npars
         p = PT((nfree,), lambda idx: z3.Function("p", I, z3.RealSort())(idx[0]), "real")
@@ -659,6 +674,26 @@ def _replay_shim_case(npars, fixed, do_stitch):
     else:
         if list(kwargs["x0"]) != init or kwargs["fixed_vals"] != fixed_vals:
             bad["minimizer_kwargs"] = repr(kwargs)
+    # what the backend shim receives: the pieces must pair index k with value k, exactly the caller's pairs
+    import pyhf.optimize.common as common
+    seen = {}
+    saved = common._get_tensor_shim
+
+    def spy_shim():
+        def wrap(objective, data, pdf, stitch_pars, do_grad=False, jit_pieces=None):
+            seen["jit_pieces"] = jit_pieces
+            return lambda pars: pars
+        return wrap
+    common._get_tensor_shim = spy_shim
+    try:
+        shim(lambda p, d, m: p, [1.0], the_pdf, init, bounds, fixed_vals, do_grad=False, do_stitch=do_stitch)
+    finally:
+        common._get_tensor_shim = saved
+    jp = seen.get("jit_pieces") or {}
+    pairs = sorted(zip(list(jp.get("fixed_idx", [])), [float(v) for v in jp.get("fixed_values", [])]))
+    if pairs != sorted((i, float(v)) for i, v in fixed_vals) or list(jp.get("variable_idx", [])) != free:
+        bad["jit_pieces"] = {"fixed_idx": list(jp.get("fixed_idx", [])), "fixed_values": [float(v) for v in jp.get("fixed_values", [])],
+                             "variable_idx": list(jp.get("variable_idx", [])), "caller's fixed_vals": fixed_vals}
     return {"reproduced": bool(bad), "case": meta, "disagreements": bad}
 
 
